@@ -158,8 +158,6 @@ def run(ctx) -> None:
     ctx.section("d", _tracker, ctx)
     ctx.section("e", _who_calls, ctx)
     ctx.section("f", _fresh_storage, ctx)
-    ctx.info("all empty vectors share CPython's interned () and `v << []` returns v's own tuple (t + () is t): these "
-             "vectors really do share storage, so a refusal there is consistent with the statement")
     ctx.info("deepcopy in _check_duplicate creates a vector that is not registered; harmless for isolation (immutable "
              "storage, C01.a)")
     ctx.not_decided.append("garbage-collection timing itself; the argument is by invariant preservation, not by exploring histories")
@@ -409,6 +407,18 @@ def _tracker(ctx) -> None:
             if why:
                 problems.append(f"the owners counted by `{short(e)}` are not the LIVE referents after pruning: {why} - a "
                                 f"vector whose former sharers were garbage-collected would be refused")
+    # zero-length storage is never refused: every empty vector holds the one interned empty tuple
+    from ..sites2 import interp_of as _iof
+    from ..symx import flatten_conds as _fc
+    cit = _iof(prog, f)
+    TID = ("param", f.params[2])
+    empty_id = ("call", ("name", "id"), (("tuple", ()),), ())
+    rz_ev = [e for e in cit.events if e.kind == "raise"]
+    guarded = bool(rz_ev) and all(any((not pol) and t[0] == "cmp" and t[1] == "Eq" and {t[2], t[3]} == {TID, empty_id} for t, pol in _fc(e.conds))
+                                  for e in rz_ev)
+    ctx.ob("d.tracker", f, "empty-storage", guarded, "the refusal cannot happen for id(()) - the storage every empty vector shares", f.node,
+           message="check_writable can refuse zero-length storage: all empty vectors (and a 0-row table's own columns) hold CPython's one "
+                   "interned empty tuple, so a no-op write on an empty filter result raises AliasError")
     ctx.ob("d.tracker", f, "refusal-condition", not problems,
            "AliasError iff at least 2 live referents remain after pruning dead weak references",
            raises[0].ast if raises else f.node, message="; ".join(problems))
@@ -571,10 +581,45 @@ def _fresh_storage(ctx) -> None:
                             f"(v[:] of a tuple is the same object), so the copy would share storage with its source")
     ctx.ob("f.fresh-storage", f, "copy-data", not problems and bool(rets), "copy() hands list(...) to Vector(...)",
            rets[0] if rets else f.node, message="; ".join(problems))
+    # no operation result is built over an OPERAND's own tuple: a tuple concatenation with a possibly empty other side returns the
+    # operand's tuple itself (t + () is t), and a Vector built over an exact tuple adopts it - on the construction sites (sites2)
+    from ..sites2 import all_sites2, leaves, strip_seq
+    from ..symx import show
+    problems = []
+    n = 0
+    for st in all_sites2(prog):
+        if st.kind not in ("Vector", "cls") or st.data is None or st.top.module != "vector":
+            continue
+        for d in leaves(st.data):
+            if d[0] != "bin" or d[1] != "Add":
+                continue                        # wrapped in list(...) / a comprehension: a fresh sequence
+            n += 1
+            a, b = d[2], d[3]
+
+            def own(t) -> bool:
+                return t[0] == "attr" and t[2] == "_underlying"
+
+            def never_empty(t) -> bool:
+                return t[0] == "tuple" and len(t[1]) >= 1 and not any(x[0] == "star" for x in t[1])
+            for x, y in ((a, b), (b, a)):
+                if own(x) and not never_empty(y):
+                    problems.append(f"{st.top.qualname}: `{show(st.call, st.it)[:60]}` is built over `{show(d, st.it)[:40]}`: when "
+                                    f"`{show(y, st.it)[:20]}` is empty the concatenation IS `{show(x, st.it)[:25]}`, so the result shares the "
+                                    f"operand's storage and both refuse writes")
+                    break
+    seen = set()
+    problems = [p_ for p_ in problems if not (p_ in seen or seen.add(p_))]
+    ctx.ob("f.fresh-storage", prog.func("vector.Vector.__lshift__"), "concatenations", not problems,
+           f"{n} tuple concatenation(s) handed to a constructor, none can be an operand's own tuple", message="; ".join(problems[:2]))
 
 
 _V = "vector"
 MUTANTS = [
+    dict(id="lshift-over-operand-tuple", module=_V, old="			return Vector(list(self._underlying + other._underlying))",
+         new="			return Vector(self._underlying + other._underlying)", rules=["f.fresh-storage"],
+         desc="the defect repaired by fix c37ac98: v << [] shares v's storage"),
+    dict(id="empty-storage-refused", module="alias_tracker", old="        if tuple_id == id(()):\n", new="        if False:\n",
+         rules=["d.tracker"], desc="the defect repaired by fix 0e8a5d3: all empty vectors share () and refuse writes"),
     dict(id="setitem-drops-unregister", module=_V, old="		_alias.unregister(self, old_id)\n", new="", rules=["a.bracket"]),
     dict(id="setitem-registers-old-id", module=_V, old="		_alias.register(self, id(new_tuple))", new="		_alias.register(self, old_id)",
          rules=["a.bracket"]),
